@@ -88,7 +88,9 @@ CHECKS = {
              "(2 names + a never-appended one, 6 batch shapes incl. empty, out-of-order and equal dates, depth 4-5) and emits every "
              "history with the read table after each Append; each is replayed on the real InMemoryRepository, FileSystemRepository and "
              "SQLRepository (over a conforming in-process database/sql driver whose gate shows whether Append returns before its rows "
-             "are written), with ALL reads performed after every Append.",
+             "are written), with ALL reads performed after every Append. spec/RepositoryOverlap.tla: every interleaving of 2-3 "
+             "overlapping Append calls on one asset (begin / feed / return / read steps; Visible, NoLossNoDup) replayed on the in-memory "
+             "repository through source channels the harness controls (7.6 k schedules quick).",
         design_ref="DESIGN.md 2.5, 5 (C10)",
         note="Trusted: TLC, the replay harness, the fake SQL driver (harness/fakesql.go). SQL only for strictly increasing dates per "
              "asset; Assets() order and names that only ever received empty batches are not compared.",
